@@ -487,3 +487,178 @@ class _drop_measurement(Contract):
         i = z3.Int(fresh_name("i"))
         named = forall([i], z3.Select(A, i) == z3.And(0 <= i, i < l_len(items0), meas(dec(l_at(items0, i))) == c.name.t), patterns=[z3.Select(A, i)])
         return [("dropped_are_exactly_the_named", named), ("returns_number_dropped", c.result.t == card(A))] + removed_view(items1, items0, A) + dbinv(c.self)
+
+
+# ---------------------------------------------------------------- insert
+
+
+def norm_point(o, m, now):
+    """the point stored for element o: measurement replaced when a (truthy) name is given,
+    time normalised to UTC or stamped with the call's insertion time (C08, C10)"""
+    t = z3.If(o_is_some(mp_time(o)), dt_utc(o_val(mp_time(o))), now)
+    ms = z3.If(truthy_opt_str(m), o_val(m.t), mp_meas(o))
+    return mkpt(t, ms, mp_tags(o), mp_fields(o))
+
+
+def inserted_prefix(items1, items0, points, k, m, now):
+    """items1 = items0 ++ [items decoding to the normalised first k points]"""
+    j = z3.Int(fresh_name("j"))
+    n0 = l_len(items0)
+    return [
+        ("length", l_len(items1) == n0 + k),
+        ("old_items_untouched", forall([j], z3.Implies(z3.And(0 <= j, j < n0), l_at(items1, j) == l_at(items0, j)), patterns=[l_at(items1, j), l_at(items0, j)])),
+        ("new_items_decode_to_normalised_points", forall([j], z3.Implies(z3.And(0 <= j, j < k), dec(l_at(items1, n0 + j)) == norm_point(l_at(points, j), m, now)),
+                                                         patterns=[l_at(points, j)])),
+    ]
+
+
+def first_non_point(points, k):
+    j = z3.Int(fresh_name("j"))
+    return z3.And(0 <= k, k < l_len(points), z3.Not(is_point(l_at(points, k))),
+                  forall([j], z3.Implies(z3.And(0 <= j, j < k), is_point(l_at(points, j))), patterns=[l_at(points, j)]))
+
+
+NOW = now_utc(z3.IntVal(0))
+
+
+@contract(_TF + "_insert_helper")
+class _insert_helper(Contract):
+    """C06/C08/C10/C11/C16: inserts append the normalised points; the index is extended, or invalidated, never stale."""
+    params = dict(self=DB, points=LAny, measurement=OStr, compact_key_prefixes=TBool)
+    defaults = dict(compact_key_prefixes=lambda ex: mk_bool(False))
+    ret = TInt
+    modifies = ("_storage", "_index")
+    theories = ("time", "mkpt")
+    witness_sig = {"bad": ([], TInt)}
+
+    @staticmethod
+    def requires(c):
+        return dbinv(c.self)
+
+    @staticmethod
+    def witness(c):
+        return {"bad": lambda: z3.IntVal(-1)}
+
+    @staticmethod
+    def _raises(c):
+        k = z3.Int(fresh_name("k"))
+        pts = c.points.t
+        return dict(when=z3.Exists([k], z3.And(0 <= k, k < l_len(pts), z3.Not(is_point(l_at(pts, k))))), ensures=_insert_helper._exc_ensures)
+
+    @staticmethod
+    def _exc_ensures(c):
+        # C11: the points before the offending element are stored, nothing else changed, invariant holds
+        k = z3.Int(fresh_name("kbad"))
+        pts = c.points.t
+        items0, items1 = c.old.self.t["_storage"].t["items"].t, c.self.t["_storage"].t["items"].t
+        pre = inserted_prefix(items1, items0, pts, k, c.measurement, NOW)
+        return [("prefix_before_offending_element_inserted", z3.Exists([k], z3.And(first_non_point(pts, k), *[f for _, f in pre])))] + dbinv(c.self)
+
+    raises = {"TypeError": staticmethod(lambda c: _insert_helper._raises(c))}
+
+    @staticmethod
+    def ensures(c):
+        pts = c.points.t
+        items0, items1 = c.old.self.t["_storage"].t["items"].t, c.self.t["_storage"].t["items"].t
+        ix0, ix1 = c.old.self.t["_index"].t, c.self.t["_index"].t
+        auto = c.self.t["_auto_index"].t
+        return [("returns_number_of_points", c.result.t == l_len(pts))] + inserted_prefix(items1, items0, pts, l_len(pts), c.measurement, NOW) + [
+            ("temp_untouched", c.self.t["_storage"].t["temp"].t == c.old.self.t["_storage"].t["temp"].t),
+            ("in_time_order_keeps_index_valid", z3.Implies(z3.And(auto, ix0["_valid"].t, _insert_helper._in_order(c, l_len(pts))), ix1["_valid"].t)),
+            ("without_auto_index_nonempty_insert_invalidates", z3.Implies(z3.And(z3.Not(auto), l_len(pts) > 0), z3.Not(ix1["_valid"].t))),
+        ] + dbinv(c.self)
+
+    @staticmethod
+    def _in_order(c, k):
+        """the first k normalised points are not earlier than what precedes them (old index, then each other)"""
+        pts = c.points.t
+        ix0 = c.old.self.t["_index"].t
+        TS0 = ix0["_timestamps"].t
+        n0 = l_len(TS0)
+        j, j2 = z3.Int(fresh_name("j")), z3.Int(fresh_name("j2"))
+        tsn = lambda jj: ts(norm_point(l_at(pts, jj), c.measurement, NOW))
+        return z3.And(forall([j], z3.Implies(z3.And(0 <= j, j < k, n0 > 0), l_at(TS0, n0 - 1) <= tsn(j)), patterns=[l_at(pts, j)]),
+                      forall([j, j2], z3.Implies(z3.And(0 <= j, j <= j2, j2 < k), tsn(j) <= tsn(j2)), patterns=[z3.MultiPattern(l_at(pts, j), l_at(pts, j2))]))
+
+    @staticmethod
+    def _inv(c):
+        t = c.loop(0).t
+        pts = c.points.t
+        items0, items1 = c.old.self.t["_storage"].t["items"].t, c.self.t["_storage"].t["items"].t
+        ix0, ix1 = c.old.self.t["_index"].t, c.self.t["_index"].t
+        auto = c.self.t["_auto_index"].t
+        j = z3.Int(fresh_name("j"))
+        TS1 = ix1["_timestamps"].t
+        return [
+            ("count", c.count.t == t),
+            ("now", c.t.t == NOW),
+            ("all_points_so_far", forall([j], z3.Implies(z3.And(0 <= j, j < t), is_point(l_at(pts, j))), patterns=[l_at(pts, j)])),
+            ("temp_untouched", c.self.t["_storage"].t["temp"].t == c.old.self.t["_storage"].t["temp"].t),
+            ("in_time_order_keeps_index_valid", z3.Implies(z3.And(auto, ix0["_valid"].t, _insert_helper._in_order(c, t)), ix1["_valid"].t)),
+            ("index_untouched_without_auto_or_at_start", z3.Implies(z3.Or(z3.Not(auto), t == 0), z3.And(*[ix1[a].t == ix0[a].t for a in ix0]))),
+            ("latest_indexed_time", z3.Implies(z3.And(auto, ix1["_valid"].t, t > 0), z3.And(l_len(TS1) > 0,
+                                                                                            l_at(TS1, l_len(TS1) - 1) == ts(norm_point(l_at(pts, t - 1), c.measurement, NOW))))),
+        ] + inserted_prefix(items1, items0, pts, t, c.measurement, NOW) + _insert_helper._dbinv_loop(c)
+
+    @staticmethod
+    def _dbinv_loop(c):
+        # with auto_index off the index is only invalidated after the loop: inside it a valid index is the untouched old one
+        auto = c.self.t["_auto_index"].t
+        return [(l, z3.Implies(auto, f)) if l.startswith("ix:") else (l, f) for l, f in dbinv(c.self)]
+
+    loops = {0: dict(inv=lambda c: _insert_helper._inv(c))}
+
+
+APPEND_RAISES = {"OSError": staticmethod(lambda c: dict(when=z3.Not(c.self.t["_storage"].t["appendable"].t)))}
+
+
+@contract(_TF + "insert")
+class _insert(Contract):
+    """C08/C10/C14: one normalised point is appended; a non-Point is rejected with TypeError and changes nothing."""
+    params = dict(self=DB, point=AnyObj, measurement=OStr, compact_key_prefixes=TBool)
+    defaults = dict(measurement=NONE_STR, compact_key_prefixes=lambda ex: mk_bool(False))
+    ret = TInt
+    modifies = ("_storage", "_index")
+    theories = ("time", "mkpt")
+
+    @staticmethod
+    def requires(c):
+        return dbinv(c.self)
+
+    @staticmethod
+    def _te(c):
+        def ens(cc):
+            return [("storage_unchanged", same_elems(cc.self.t["_storage"].t["items"].t, cc.old.self.t["_storage"].t["items"].t))] + dbinv(cc.self)
+        return dict(when=z3.And(c.self.t["_storage"].t["appendable"].t, z3.Not(is_point(c.point.t))), ensures=ens)
+
+    raises = dict(APPEND_RAISES, TypeError=staticmethod(lambda c: _insert._te(c)))
+
+    @staticmethod
+    def ensures(c):
+        items0, items1 = c.old.self.t["_storage"].t["items"].t, c.self.t["_storage"].t["items"].t
+        n0 = l_len(items0)
+        j = z3.Int(fresh_name("j"))
+        return [("returns_one", c.result.t == 1),
+                ("one_item_appended", l_len(items1) == n0 + 1),
+                ("old_items_untouched", forall([j], z3.Implies(z3.And(0 <= j, j < n0), l_at(items1, j) == l_at(items0, j)), patterns=[l_at(items1, j), l_at(items0, j)])),
+                ("stored_point_is_normalised", dec(l_at(items1, n0)) == norm_point(c.point.t, c.measurement, NOW)),
+                ] + dbinv(c.self)
+
+
+@contract(_TF + "insert_multiple")
+class _insert_multiple(Contract):
+    params = dict(self=DB, points=LAny, measurement=OStr, compact_key_prefixes=TBool)
+    defaults = dict(measurement=NONE_STR, compact_key_prefixes=lambda ex: mk_bool(False))
+    ret = TInt
+    modifies = ("_storage", "_index")
+    theories = ("time", "mkpt")
+    raises = dict(APPEND_RAISES, TypeError=staticmethod(lambda c: dict(
+        when=z3.And(c.self.t["_storage"].t["appendable"].t, _insert_helper._raises(c)["when"]), ensures=_insert_helper._exc_ensures)))
+
+    @staticmethod
+    def requires(c):
+        return dbinv(c.self)
+
+    @staticmethod
+    def ensures(c):
+        return _insert_helper.ensures(c)
